@@ -39,6 +39,10 @@ pub struct Case {
     /// the start-up rotation belongs to that record all the same - the trigger is consulted before encoding
     #[serde(default)]
     pub first_encode_fails: bool,
+    /// the configured path is a symbolic link to the pre-existing file (`current.log -> data/app-1.log`): the size
+    /// "of the log file that existed" is the size of what the link points to
+    #[serde(default)]
+    pub symlinked: bool,
 }
 
 pub fn strategy() -> impl Strategy<Value = Case> {
@@ -51,9 +55,9 @@ pub fn strategy() -> impl Strategy<Value = Case> {
         lens(),
         prop::option::weighted(0.12, prop::collection::vec(prop::collection::vec(0usize..40, 1..=5), 2..=8)),
         prop::option::weighted(0.35, lens()),
-        (prop::bool::weighted(0.2), prop::bool::ANY, prop::bool::ANY, prop::bool::weighted(0.2)),
+        (prop::bool::weighted(0.2), prop::bool::ANY, prop::bool::ANY, prop::bool::weighted(0.2), prop::bool::weighted(0.2)),
     )
-        .prop_map(|(min_size, pre, append_mode, count, records, threads, second_lifetime, (fail_first_roll, fail_after_moving, via_config_default, first_encode_fails))| Case { min_size, pre, append_mode, count, records, fail_first_roll: fail_first_roll && threads.is_none(), first_encode_fails: first_encode_fails && threads.is_none() && !fail_first_roll, threads, second_lifetime, long_lifetime: 0, fail_after_moving, via_config_default })
+        .prop_map(|(min_size, pre, append_mode, count, records, threads, second_lifetime, (fail_first_roll, fail_after_moving, via_config_default, first_encode_fails, symlinked))| Case { symlinked: symlinked && pre.is_some(), min_size, pre, append_mode, count, records, fail_first_roll: fail_first_roll && threads.is_none(), first_encode_fails: first_encode_fails && threads.is_none() && !fail_first_roll, threads, second_lifetime, long_lifetime: 0, fail_after_moving, via_config_default })
 }
 
 pub fn check(tmp: &Path, case: &Case, obs: &mut Obs) -> CaseResult {
@@ -72,7 +76,14 @@ fn check_in(dir: &Path, case: &Case, obs: &mut Obs) -> CaseResult {
         // sizes are relative to min_size, except for thresholds no real file can reach
         let size = if case.min_size > 1 << 20 { d.unsigned_abs() as usize % 4096 } else { (case.min_size as i64 + d).max(0) as usize };
         on_disk_before = (0..size).map(|i| b'A' + (i % 23) as u8).collect();
-        std::fs::write(&path, &on_disk_before).unwrap();
+        if case.symlinked {
+            std::fs::create_dir_all(dir.join("data")).unwrap();
+            std::fs::write(dir.join("data/app-1.log"), &on_disk_before).unwrap();
+            std::os::unix::fs::symlink("data/app-1.log", &path).unwrap();
+            obs.class("configured-path-is-a-symbolic-link");
+        } else {
+            std::fs::write(&path, &on_disk_before).unwrap();
+        }
     }
     let mut lifetimes: Vec<Vec<usize>> = vec![case.records.clone()];
     if let Some(s) = &case.second_lifetime {
@@ -298,7 +309,7 @@ pub fn run(run: &Run) {
     if run.worker.0 == 0 {
         // one very long lifetime: the "first record" latch must hold beyond any counter width one might pick
         for (pre, min_size) in [(Some(10i64), 5u64), (Some(-3), 40)] {
-            run.eval_one("startup", &Case { min_size, pre, append_mode: true, count: 2, records: vec![3, 0, 7], threads: None, second_lifetime: None, fail_first_roll: false, long_lifetime: 70_000, fail_after_moving: false, via_config_default: false, first_encode_fails: false }, &f);
+            run.eval_one("startup", &Case { min_size, pre, append_mode: true, count: 2, records: vec![3, 0, 7], threads: None, second_lifetime: None, fail_first_roll: false, long_lifetime: 70_000, fail_after_moving: false, via_config_default: false, first_encode_fails: false, symlinked: false }, &f);
         }
     }
     run.search("startup", run.tier.pick(1_500, 80_000), strategy(), &f);
